@@ -13,6 +13,16 @@ use crate::WithErrorInfo;
 
 impl Resolver<'_> {
     pub(super) fn resolve_ident(&mut self, ident: &Ident) -> Result<Ident, Error> {
+        self.resolve_ident_following(ident, &mut Vec::new())
+    }
+
+    /// Resolves an ident, following imports. `imports` holds the imports followed so far, so
+    /// that an import leading back to itself is an error instead of an endless recursion.
+    fn resolve_ident_following(
+        &mut self,
+        ident: &Ident,
+        imports: &mut Vec<Ident>,
+    ) -> Result<Ident, Error> {
         let mut res = if let Some(default_namespace) = self.default_namespace.clone() {
             self.resolve_ident_core(ident, Some(&default_namespace))
         } else {
@@ -34,7 +44,13 @@ impl Resolver<'_> {
                 let decl = self.root_mod.module.get(fq_ident).unwrap();
                 if let DeclKind::Import(target) = &decl.kind {
                     let target = target.clone();
-                    return self.resolve_ident(&target);
+                    if imports.contains(fq_ident) {
+                        return Err(Error::new_simple(format!(
+                            "import `{fq_ident}` refers to itself"
+                        )));
+                    }
+                    imports.push(fq_ident.clone());
+                    return self.resolve_ident_following(&target, imports);
                 }
             }
             Err(e) => {
